@@ -13,6 +13,7 @@
 // @id C19.binary_parameters_symmetric
 // @engine B
 // @entry vfh_C19_binary_params
+// @shared_state_watch
 // @tier Q
 // @opts max_steps=30000000
 // @reach params.read
